@@ -290,7 +290,9 @@ func getProxyRequest(clientConn transport.StreamConn) (string, error) {
 	return tgtAddr.String(), nil
 }
 
-func proxyConnection(l *slog.Logger, ctx context.Context, dialer transport.StreamDialer, tgtAddr string, clientConn transport.StreamConn) *onet.ConnectionError {
+// `clientConn` is the decrypted client connection; `rawClientConn` is the connection underneath it, which is
+// what has to be drained once `clientConn` has failed.
+func proxyConnection(l *slog.Logger, ctx context.Context, dialer transport.StreamDialer, tgtAddr string, clientConn transport.StreamConn, rawClientConn io.Reader) *onet.ConnectionError {
 	tgtConn, dialErr := dialer.DialStream(ctx, tgtAddr)
 	if dialErr != nil {
 		// We don't drain so dial errors and invalid addresses are communicated quickly.
@@ -303,8 +305,9 @@ func proxyConnection(l *slog.Logger, ctx context.Context, dialer transport.Strea
 	go func() {
 		_, fromClientErr := io.Copy(tgtConn, clientConn)
 		if fromClientErr != nil {
-			// Drain to prevent a close in the case of a cipher error.
-			io.Copy(io.Discard, clientConn)
+			// Drain to prevent a close in the case of a cipher error. After a cipher error the
+			// decrypting reader fails again at once, so drain the underlying connection.
+			io.Copy(io.Discard, rawClientConn)
 		}
 		clientConn.CloseRead()
 		// Send FIN to target.
@@ -365,7 +368,7 @@ func (h *streamHandler) handleConnection(ctx context.Context, outerConn transpor
 		tgtConn = metrics.MeasureConn(tgtConn, &proxyMetrics.ProxyTarget, &proxyMetrics.TargetProxy)
 		return tgtConn, nil
 	})
-	return proxyConnection(h.logger, ctx, dialer, tgtAddr, innerConn)
+	return proxyConnection(h.logger, ctx, dialer, tgtAddr, innerConn, outerConn)
 }
 
 // Keep the connection open until we hit the authentication deadline to protect against probing attacks
